@@ -243,7 +243,8 @@ theorem C17_cumulative_is_sum (c : Cfg) (r : Nat) :
         rw [this, Nat.succ_mul]
         omega
 
-theorem cumulative_strictMono (c : Cfg) (hq : 0 < c.quick) (hs : 0 < c.slow) (r r' : Nat) (h : r < r') :
+/-- the cumulative allowance is strictly increasing in the round when both allowances are positive -/
+theorem C17_cumulative_strictMono (c : Cfg) (hq : 0 < c.quick) (hs : 0 < c.slow) (r r' : Nat) (h : r < r') :
     cumulative c r < cumulative c r' := by
   induction r' with
   | zero => omega
@@ -281,7 +282,7 @@ theorem C17_deadline_formula (c : Cfg) (h r now : Nat)
   refine ⟨b, hb1, hb2, ?_, ?_⟩
   · simp [deadline, hb1, slotStart]; omega
   · intro hq hs r' hr
-    have := cumulative_strictMono c hq hs r r' hr
+    have := C17_cumulative_strictMono c hq hs r r' hr
     simp [deadline, hb1]; omega
 
 example : deadline exCfg 0 1 1000 = 1000 + 100 + 50 ∧ deadline exCfg 0 4 1210 = 1000 + 100 + (2 * 50 + 2 * 200) := by decide
